@@ -12,7 +12,7 @@ ID = 'C18'
 EXHAUSTIVE = {'quick': True, 'thorough': True}
 RULE = ('exhaustive: 118 elements x (every tabulated isotope + unspecified) x charge -4..+4 x radical flag; each triple '
         'is built as an atom, packed/unpacked (hydrogens 0..6/None), compiled for the bit-mask matcher and decoded '
-        'with an independent bit-layout reader; non-trivial = every (element, isotope, charge, radical) case; '
+        'ten different first lookups, each in a fresh interpreter, followed by all 354 number/symbol lookups; query-side matcher words decoded and tested pairwise against molecule-side words. with an independent bit-layout reader; non-trivial = every (element, isotope, charge, radical) case; '
         'distinct by that tuple')
 ASSUMPTIONS = ['standard symbol table is the literal IUPAC list embedded in this check',
                'pack and matcher code are executed through the pyx transliterator (DESIGN 0.1), not compiled C',
